@@ -277,6 +277,12 @@ func init() {
 			}
 			return Scalar{errorsIs(e.st, a, b)}
 		},
+		// contains(a, b): string b occurs in string a
+		"contains": func(e *Env, args []ast.Expr) Value {
+			a := e.toTerm(e.eval(args[0]))
+			b := e.toTerm(e.eval(args[1]))
+			return Scalar{mk("str.contains", SBool, a, b)}
+		},
 		// wrote_nothing(): no heap cell that existed at entry was written on any explored path so far
 		"wrote_nothing": func(e *Env, args []ast.Expr) Value {
 			var ks []string
@@ -361,8 +367,17 @@ func init() {
 		},
 		// visited(s): s has been handed to the Range callback already
 		"visited": func(e *Env, args []ast.Expr) Value {
-			iv, ok := e.eval(args[0]).(Iface)
+			av := e.eval(args[0])
 			vis, ok2 := e.st.ghost["range.visited"].(Scalar)
+			if sc, isScalar := av.(Scalar); isScalar && ok2 {
+				// key of a Go map range (int or string)
+				idx, okk := e.st.keyIndex(sc)
+				if !okk {
+					fail("spec: visited(x): unsupported key")
+				}
+				return Scalar{SetHas(vis.T, idx)}
+			}
+			iv, ok := av.(Iface)
 			if !ok || !ok2 {
 				fail("spec: visited(x) outside a Range invariant")
 			}
@@ -411,6 +426,10 @@ func init() {
 			}
 			n.bound[id.Name] = e.st.symValue(ty, h)
 			body := n.evalBool(args[2])
+			if _, isBasic := under(ty).(*types.Basic); isBasic {
+				// foralls(s, string, body): every value of a basic type (as val_T(h) of an arbitrary h)
+				return Scalar{Forall([]*Term{h}, body)}
+			}
 			return Scalar{Forall([]*Term{h}, Implies(Neq(UF("tid", SInt, h), Int(0)), body))}
 		},
 		// elemh(s, i): the identity (handle) of element i of a slice of non-scalar elements
